@@ -2,5 +2,5 @@ CONSTANTS Max = 3  Walk = FALSE  WalkLen = 0  ProbeTicks = 7
 CONSTANT Pairs <- PairsFull
 INIT Init
 NEXT Next
-VIEW View
+VIEW ViewM
 INVARIANTS InvPool InvFire InvSchedule InvCreate
